@@ -6,8 +6,9 @@ An interval (from, to) holds the FREE identifiers from+1 … to.
 `get`  mirrors (*simpleMidPool).Get
 `put`  mirrors (*simpleMidPool).Put; Go's sort.Search + index arithmetic on
        idx-1 / idx is rendered as one structural walk with one interval of
-       look-ahead (`putIvs`); the literal index-based rendering is in
-       `Wasp/Model/IdPoolLit.lean` and is proven equal under the invariant.
+       look-ahead (`putIvs`); the literal index-based rendering is REGENERATED
+       from the source on every run (`Wasp/Generated/IdPoolLit.lean`, extract/imperative.go)
+       and is proven equal under the invariant in `Wasp/Proofs/IdPoolLit.lean`.
 -/
 namespace Wasp.IdPool
 
